@@ -7,7 +7,8 @@ invariant  _max_overflow == -1 or _overflow <= _max_overflow,  gives   slots <= 
 from pyvc.contract import fn, cls
 
 Q = "util/queue.py::Queue."
-cls("Queue", fields={"maxsize": "int", "queue": "deque", "use_lifo": "bool", "mutex": "v", "not_empty": "v", "not_full": "v"},
+cls("Queue", fields={"maxsize": "int", "queue": "deque", "use_lifo": "bool", "mutex": "v", "not_empty": "v", "not_full": "v",
+                     "_g_clock": "int"},     # ghost: the monotonic clock read by _time()
     rep=["self.maxsize <= 0 or len(self.queue) <= self.maxsize"],
     methods={n: Q + n for n in ["_qsize", "_empty", "_full", "_put", "_get", "put", "get", "qsize"]})
 
@@ -26,8 +27,14 @@ fn(Q + "_get", cls="Queue", props=["C25"],
 fn(Q + "qsize", cls="Queue", props=["C25"], returns="int", ensures=["result == len(self.queue)"], modifies=[])
 
 # Condition.wait(): other threads may change the queue while the lock is released; on return the monitor (rep) invariant holds
-fn(Q + "__wait__", abstract=True, cls="Queue", params=["self"], returns="none", modifies=["contents(self.queue)"], ensures=[],
-   notes="Condition.wait: releases the monitor; any other thread may have put/got; the representation invariant holds on return")
+fn(Q + "__wait__", abstract=True, cls="Queue", params=["self"], returns="none", modifies=["contents(self.queue)", "self._g_clock"],
+   ensures=["self._g_clock >= old(self._g_clock)"],
+   notes="Condition.wait: releases the monitor; any other thread may have put/got; the representation invariant holds on return; "
+         "it may return at any time (notified and overtaken, or spuriously): time only moves forward")
+fn(Q + "__time__", abstract=True, cls="Queue", params=["self"], returns="int", modifies=["self._g_clock"],
+   ensures=["self._g_clock >= old(self._g_clock)", "result == self._g_clock"], notes="time.monotonic(): reads the ghost clock, which never runs backwards")
+# a timed put/get gives up only when its whole timeout has elapsed (a waiter is served by what arrives before its timeout)
+GAVE_UP = "implies(block and timeout is not None, self._g_clock >= old(self._g_clock) + timeout)"
 
 fn(Q + "put", cls="Queue", props=["C25"], returns="none",
    types={"block": "bool", "timeout": "v", "remaining": "int", "endtime": "int"},
@@ -35,20 +42,22 @@ fn(Q + "put", cls="Queue", props=["C25"], returns="none",
              dict(name="blocking-no-timeout", requires=["block", "timeout is None"]),
              dict(name="blocking-timeout", requires=["block", "timeout is not None"], types={"timeout": "int"},
                   may_raise={"Full": "True", "ValueError": "timeout < 0"})],
-   callees={"self.not_full.wait": dict(fn=Q + "__wait__", recv="self", args=[]), "self.not_empty.notify": "noop", "_time": "havoc:int"},
+   callees={"self.not_full.wait": dict(fn=Q + "__wait__", recv="self", args=[]), "self.not_empty.notify": "noop", "_time": dict(fn=Q + "__time__", recv="self", args=[])},
    ensures=["len(self.queue) > 0 and contents(self.queue)[-1] is item",
             "implies(not block, contents(self.queue) == old(contents(self.queue)) + [item])"],
-   modifies=["contents(self.queue)"])
+   exc_ensures={"Full": [GAVE_UP]},
+   modifies=["contents(self.queue)", "self._g_clock"])
 fn(Q + "get", cls="Queue", props=["C25"],
    types={"block": "bool", "timeout": "v", "remaining": "int", "endtime": "int"},
    variants=[dict(name="nonblocking", requires=["not block"], raises={"Empty": "len(self.queue) == 0"}),
              dict(name="blocking-no-timeout", requires=["block", "timeout is None"]),
              dict(name="blocking-timeout", requires=["block", "timeout is not None"], types={"timeout": "int"},
                   may_raise={"Empty": "True", "ValueError": "timeout < 0"})],
-   callees={"self.not_empty.wait": dict(fn=Q + "__wait__", recv="self", args=[]), "self.not_full.notify": "noop", "_time": "havoc:int"},
+   callees={"self.not_empty.wait": dict(fn=Q + "__wait__", recv="self", args=[]), "self.not_full.notify": "noop", "_time": dict(fn=Q + "__time__", recv="self", args=[])},
+   exc_ensures={"Empty": [GAVE_UP]},
    ensures=["implies(not block, ite(self.use_lifo, result is old(contents(self.queue))[-1] and contents(self.queue) == old(contents(self.queue))[:-1],"
             " result is old(contents(self.queue))[0] and contents(self.queue) == old(contents(self.queue))[1:]))"],
-   modifies=["contents(self.queue)"])
+   modifies=["contents(self.queue)", "self._g_clock"])
 # callers see the union of the variants' exceptional behaviour
 from pyvc.contract import FUNCS as _F
 _F[Q + "put"].raises = {"Full": "not block and self.maxsize > 0 and len(self.queue) == self.maxsize"}
@@ -80,7 +89,7 @@ MON = dict(havoc=["self._overflow", "self.slots", "self.pending", "contents(self
            locks=["self._overflow_lock"], calls=["self._pool.get", "self._pool.put", "self._create_connection", "record.close"])
 GHOST = {"self._overflow += 1": ["self.pending += 1", "self.mine += 1"],
          "self._overflow -= 1": ["self.pending -= 1", "self.mine -= 1"]}
-SHARED = ["self._overflow", "self.slots", "self.pending", "self.mine", "contents(self._pool.queue)"]
+SHARED = ["self._overflow", "self.slots", "self.pending", "self.mine", "contents(self._pool.queue)", "self._pool._g_clock"]
 
 fn(P + "_inc_overflow", cls="QueuePool", props=["C25"], returns="bool", monitor=MON, ghost_after=GHOST,
    requires=G, ensures=G + ["self.mine == old(self.mine) + ite(result, 1, 0)"], modifies=SHARED)
